@@ -24,7 +24,7 @@ RULE = ("(a) every generated program (typed generator, depth <= 3) and every tes
         "tests/dwz-partial2-1, tests/nontrivial-types.o; raw and cooked) is executed n+2 times with the result set "
         "destroyed after k = 0..n+1 pulls; (b) every prefix and single-token deletion of a sample of them is compiled "
         "(most are rejected); LeakSanitizer runs after each batch with all API objects destroyed; (c) libFuzzer over "
-        "query bytes + execution mode + number of pulls.  Non-trivial: a case that abandons a non-empty result set, "
+        "query bytes + execution mode + number of pulls; (d) ~1100 templates and random programs of blocks nested 2-4 deep that read captured variables of every enclosing level (before, inside and after an inner block, through parameters and local bindings).  Non-trivial: a case that abandons a non-empty result set, "
         "applies a closure, goes through if/overload state unions, or is a rejected query; plus distinct coverage "
         "features reached by the fuzzer (reported separately).  Distinct by program text x input x pull count.")
 
@@ -150,6 +150,79 @@ def work_gen(task):
             except DriverTimeout:
                 ev.inconc("watchdog")
         leak_gate(drv, ev, "generated programs", texts)
+        rc, txt = drv.close()
+        if rc not in (0,):
+            ev.violations.append({"property": PID, "kind": "exit", "reason": "driver exit status %s at orderly shutdown: %s" % (rc, txt[-3000:]),
+                                  "signature": "C13:exit:" + first_repo_frame(txt)})
+    finally:
+        drv.kill()
+    return ev
+
+
+def closure_nest(rnd, depth, visible, counter):
+    """Items of a block body: reads of names bound at any enclosing level, local bindings, blocks (with or without
+    parameters, applied on the spot or through a name) that do the same one level down."""
+    items = []
+    visible = list(visible)
+    for _ in range(rnd.randint(1, 4)):
+        c = rnd.random()
+        if c < 0.45 and visible:
+            items.append(("read", rnd.choice(visible)))
+        elif c < 0.85 and depth > 0:
+            ids = ()
+            if rnd.random() < 0.3:
+                counter[0] += 1
+                ids = ("P%d" % counter[0],)
+                items.append(("lit", counter[0], "dec"))
+            blk = ("block", "", ids, ("cat", closure_nest(rnd, depth - 1, visible + list(ids), counter)))
+            if rnd.random() < 0.7:
+                items += [blk, ("word", "apply")]
+            else:
+                counter[0] += 1
+                nm = "F%d" % counter[0]
+                items += [("let", (nm,), blk), ("read", nm)]
+        else:
+            counter[0] += 1
+            nm = "L%d" % counter[0]
+            items.append(("let", (nm,), ("lit", 1000 + counter[0], "dec")))
+            visible.append(nm)
+    return items
+
+
+def work_closures(task):
+    """Blocks in blocks in blocks reading captured variables of every enclosing level: a closure's environment is
+    an array indexed by numbers handed out at compile time, nothing checks them at run time."""
+    seed, start, count = task
+    ev = Evidence()
+    drv = Driver()
+    texts = []
+    from .c03 import upvalue_programs
+    templ = upvalue_programs()
+    try:
+        for i in range(start, start + count):
+            if len(ev.violations) >= 30:
+                break       # verdict settled
+            rnd = random.Random((seed << 32) ^ (i * 2654435761 & 0xffffffff) ^ 0xC13C)
+            if i < len(templ):
+                node = templ[i][1]
+            else:
+                counter = [0]
+                node = ("cat", [("let", ("A",), ("lit", 1, "dec")), ("let", ("B",), ("lit", 20, "dec")),
+                                ("cap", (), ("cat", [("block", "", (), ("cat", closure_nest(rnd, rnd.randint(1, 3), ["A", "B"], counter))), ("word", "apply")]))])
+            text = render(node)
+            texts.append(text)
+            try:
+                r = drv.run(text, limit=50, steps=200000)
+                ev.case(key=("closures", text), nontrivial=text.count("{") >= 3)
+                ev.label("closure-nest")
+                if "cerror" in r:
+                    ev.label("closure-nest:rejected")
+                if len(texts) % 100 == 0:
+                    leak_gate(drv, ev, "100 closure programs", texts[-100:])
+            except DriverCrash as e:
+                ev.violations.append(crash_record("closures", text, e.report))
+            except DriverTimeout:
+                ev.inconc("watchdog")
         rc, txt = drv.close()
         if rc not in (0,):
             ev.violations.append({"property": PID, "kind": "exit", "reason": "driver exit status %s at orderly shutdown: %s" % (rc, txt[-3000:]),
@@ -394,6 +467,9 @@ def main(tier, seed):
     ngen, depth, fuzz_s, fuzz_w = (1600, 3, 45, 12) if tier == "quick" else (40000, 3, 900, 16)
     per = max(50, ngen // 32)
     ev.merge(run_pool(work_gen, [(seed, s, min(per, ngen - s), depth) for s in range(0, ngen, per)]))
+    ncl = 3000 if tier == "quick" else 40000
+    ev.merge(run_pool(work_closures, [(seed, s, min(100, ncl - s)) for s in range(0, ncl, 100)]))
+    ev.extra["closure_programs"] = ncl
     nq = len(seeds_from_tests())
     step = max(5, nq // 16)
     ev.merge(run_pool(work_corpus, [(lo, min(lo + step, nq)) for lo in range(0, nq, step)]))
@@ -433,7 +509,7 @@ def main(tier, seed):
     return finish(PID, tier, seed, ev, RULE, t0,
                   assumptions=["uninstrumented libdw/libelf internals are trusted",
                                "dynamic detection on executed paths only"],
-                  health={"fuzzer ran": feats > 0, "leak checks ran": ev.labels.get("leak-checks", 0) > 0,
+                  health={"fuzzer ran": feats > 0, "nested closures ran": ev.labels.get("closure-nest", 0) > 2000 and ev.labels.get("closure-nest:rejected", 0) < 100, "leak checks ran": ev.labels.get("leak-checks", 0) > 0,
                           "non-empty result sets were abandoned": ev.labels.get("abandoned-non-empty", 0) > 0})
 
 
